@@ -551,3 +551,7 @@ def rule_17_8(rep, fx, bodies):
     from rules import destfilter
     destfilter.run_rule(rep, fx, 'R17.9', 'default', floor=3)
 
+    # ------------------------------------------------------------ R17.10 the reader selection with the security feature (two closures: plain and secured path)
+    from rules import dispatch
+    dispatch.run_rule(rep, fx, 'R17.10', 'default', floor=2)
+
